@@ -291,7 +291,7 @@ static void run_case(const struct kase *k, struct outcome *o)
 	if (!strncmp(kind, "accepts", 7)) describe_reject(detail, sizeof(detail), o->d0, k->bytes, k->n, lane_mod, k->entry == E_AUTO ? k->align : 0);
 	else class_pattern(detail, sizeof(detail), k->bytes, k->n);
 	if (k->ncuts) snprintf(how, sizeof(how), "-chunked");
-	snprintf(o->key, sizeof(o->key), "%s%s%s-%s:%s", e_name[k->entry], how, o->d0 != D_ACC ? "-midseq" : "", kind, detail);
+	snprintf(o->key, sizeof(o->key), "%s%s-%s:%s", e_name[k->entry], how, kind, detail); /* detail names the reference state, so mid-sequence starts need no marker */
 	hexs(hx, sizeof(hx), k->bytes, k->n);
 	snprintf(o->msg, sizeof(o->msg),
 	         "%s(bytes=[%s], is_complete=%d, align=%d, chunks=%d, start=%s/{%02X,%u,%u}) returned %s; RFC 3629 reference: %s (DFA ends in %s); byte-wise entry point on the same bytes: %s",
